@@ -97,7 +97,8 @@ def render (ok : Bool) (val : String) (rerr derr : Option Err) (s : St) : String
 /-- run one reader of the decoder model over `inp`; `none` = unmodelled (8-bit flag bytes) -/
 def runReader (side : Side) (reader : String) (inp : B) : Option String :=
   let s0 : St := { inp := inp }
-  let fuel := inp.length + 2
+  -- every nesting level spends one unit in readValue and one in readItems per byte consumed
+  let fuel := 2 * inp.length + 4
   match reader with
   | "astring" => let (ok, v, s) := expectAString side s0; some (render ok (hexN v) none s.err s)
   | "string" => let (ok, v, s) := expectString side s0; some (render ok (hexN v) none s.err s)
@@ -215,11 +216,11 @@ def oracleMbox (cfg : Cfg) (name trailer : B) (enc waits dec : String) : String 
     | none => "fail:malformed-astring-syntax"
     | some (content, t, fr) =>
       first [
-        if mailboxMeaning content ≠ some (canonInbox name) then some "wire-denotes-other-mailbox" else none,
+        if (mailboxMeaning content).all (mailboxSame name) = false || (mailboxMeaning content).isNone then some "wire-denotes-other-mailbox" else none,
         if t ≠ rest then some "wire-framing-overruns" else none,
         if !framingAllowed cfg 0 fr ws then some "literal-mode-not-negotiated" else none,
         peerClauses d rest,
-        if d.val ≠ hexN (canonInbox name) then some "roundtrip-value" else none]
+        if ((hexB? d.val).map (mailboxSame name)) ≠ some true then some "roundtrip-value" else none]
   | _, _, _ => "fail:bad-line"
 
 def oracleFlags (attr : Bool) (fs : List B) (single : Bool) (trailer : B) (enc dec : String) : String :=
